@@ -319,7 +319,7 @@ Definition path_cond (p : list string) : bool :=
   match p with
   | [] => false
   | [i] => existsb (String.eqb i) prelude_names
-  | _ => forallb ident_lexb p
+  | _ => forallb path_seg_okb p
   end.
 
 Lemma from_type_def_path_total path root alloc :
@@ -561,6 +561,16 @@ Proof.
   unfold ident_okb. intros H. apply andb_prop in H as [H _]. apply andb_prop in H as [H _]. exact H.
 Qed.
 
+Lemma ident_okb_seg x : ident_okb x = true -> path_seg_okb x = true.
+Proof.
+  unfold ident_okb, path_seg_okb. intros H. apply andb_prop in H as [H Hk]. rewrite H, Hk. reflexivity.
+Qed.
+
+Lemma path_seg_okb_lexb x : path_seg_okb x = true -> ident_lexb x = true.
+Proof.
+  unfold path_seg_okb. intros H. apply andb_prop in H as [H _]. apply andb_prop in H as [H _]. exact H.
+Qed.
+
 Lemma forallb_impl {A} (f g : A -> bool) l :
   (forall x, f x = true -> g x = true) -> forallb f l = true -> forallb g l = true.
 Proof.
@@ -635,8 +645,8 @@ Proof.
   - assert (E256 : no256_defb t = true).
     { unfold no256_defb. destruct (t_def t); try reflexivity; discriminate. }
     rewrite E256. rewrite Hp in Hid, Hcow |- *. rewrite Hcow.
-    assert (Hlex : forallb ident_lexb (a :: b :: l) = true).
-    { eapply forallb_impl; [exact ident_okb_lexb|exact Hid]. }
+    assert (Hlex : forallb path_seg_okb (a :: b :: l) = true).
+    { eapply forallb_impl; [exact ident_okb_seg|exact Hid]. }
     destruct (t_def t); try discriminate; rewrite Hlex; reflexivity.
   - rewrite H256, Hp. destruct (t_def t); try discriminate; reflexivity.
 Qed.
